@@ -1,10 +1,69 @@
 /-
   C14 — LinkADRReq channel-mask planning reaches exactly the network's channel set.
-  (Theorems are added to this file as the refinement proof progresses; see LW/Proofs/Plan.lean.)
+  Model: LW/Model/Band.lean (planGeneric / planUS / applyGeneric / applyUSLoop mirror band.go:538-623 and the US915/AU915
+  overrides). The theorems are for EVERY band state (hence every history of AddChannel/Disable/Enable), every device channel
+  set inside the plan, in any order, with duplicates — nothing is enumerated.
+  `targetMask b dev` is the specification: channel j is in the result iff it is enabled on the network and is a standard
+  channel or a custom channel already active on the device.
 -/
-import LW.Proofs.Band
+import LW.Proofs.Plan
+import LW.Generated.BandData
 namespace LW.C14
-open LW Outcome BandProofs
+open LW Outcome BandProofs PlanProofs
+
+/-- generic bands (every plan of at most 128 channels, i.e. ChMaskCntl 0..7): applying the generated payloads to the
+device's channel set yields exactly the target -/
+theorem C14_generic (b : BandState) (dev : List Int) (hn : b.up.length ≤ 128)
+    (hdev : ∀ c ∈ dev, 0 ≤ c ∧ c < (b.up.length : Int)) :
+    b.applyGeneric dev (b.planGeneric dev) = ok (maskToIdx (targetMask b dev)) :=
+  plan_apply_generic b dev hn hdev
+
+/-- US915 / AU915 (72 channels): whichever of the two candidate plans is shorter is used, and applying it — with the
+ChMaskCntl 6/7 semantics — yields the target -/
+theorem C14_us915_au915 (b : BandState) (dev : List Int) (hf : b.cfg.family = .us915 ∨ b.cfg.family = .au915)
+    (hn : b.up.length = 72) (hnc : ∀ ch ∈ b.up, ch.custom = false)
+    (hdev : ∀ c ∈ dev, 0 ≤ c ∧ c < (b.up.length : Int)) :
+    b.apply dev (b.plan dev) = ok (maskToIdx (targetMask b dev)) :=
+  plan_apply_us b dev hf hn hnc hdev
+
+/-- the hypotheses of the previous theorem hold in every reachable state of the regenerated US915 / AU915 configurations -/
+theorem C14_us_reachable : ∀ c ∈ Generated.allConfigs, (c.family = .us915 ∨ c.family = .au915) →
+    c.supportsExtra = false ∧ c.up.length = 72 ∧ (c.up.map chStatic).all (fun s => !s.2.2.2) = true := by decide +kernel
+
+theorem C14_us_reachable_state (c : BandCfg) (hc : c ∈ Generated.allConfigs) (hf : c.family = .us915 ∨ c.family = .au915) (ops : List BandOp) :
+    (run c.init ops).cfg.family = c.family ∧ (run c.init ops).up.length = 72 ∧ ∀ ch ∈ (run c.init ops).up, ch.custom = false := by
+  obtain ⟨h1, h2, h3⟩ := C14_us_reachable c hc hf
+  obtain ⟨r1, r2⟩ := run_static_noextra c ops h1
+  refine ⟨by rw [r1], ?_, ?_⟩
+  · have := congrArg List.length r2; simpa [h2] using this
+  · intro ch hch
+    have hm : chStatic ch ∈ (run c.init ops).up.map chStatic := List.mem_map_of_mem hch
+    rw [r2] at hm
+    have := List.all_eq_true.mp h3 _ hm
+    simpa [chStatic] using this
+
+/-- nothing is produced when the device already matches -/
+theorem C14_noop (b : BandState) (dev : List Int) (hdev : ∀ c ∈ dev, 0 ≤ c ∧ c < (b.up.length : Int))
+    (hmatch : ∀ j, j < b.up.length → dev.contains (Int.ofNat j) = tbit b dev j) : b.planGeneric dev = [] :=
+  plan_noop b dev hdev hmatch
+
+/-- every generated payload is encodable by the MAC layer (ChMaskCntl ≤ 7; DataRate, TXPower, NbRep are zero) -/
+theorem C14_encodable (b : BandState) (dev : List Int) (hn : b.up.length ≤ 128) (hdev : ∀ c ∈ dev, 0 ≤ c ∧ c < (b.up.length : Int)) :
+    ∀ p ∈ b.planGeneric dev, p.cntl.toNat ≤ 7 ∧ ((MacP.linkADRReq 0 0 p.mask p.cntl 0).enc).isOk = true :=
+  plan_encodable b dev hn hdev
+
+/-- at most one payload per 16-channel block (the US915/AU915 alternative adds at most the one ChMaskCntl=7 payload and is
+only used when it is not longer) -/
+theorem C14_count (b : BandState) (dev : List Int) (hdev : ∀ c ∈ dev, 0 ≤ c ∧ c < (b.up.length : Int)) :
+    (b.planGeneric dev).length ≤ (b.up.length + 15) / 16 :=
+  plan_count b dev hdev
+
+theorem C14_count_us (b : BandState) (dev : List Int) (hdev : ∀ c ∈ dev, 0 ≤ c ∧ c < (b.up.length : Int)) :
+    (b.planUS dev).length ≤ (b.up.length + 15) / 16 := by
+  simp only [BandState.planUS]
+  split
+  · exact plan_count b dev hdev
+  · rename_i h; have := plan_count b dev hdev; omega
 
 /-- applying payloads never panics on the generic bands, whatever the payloads and the device set are -/
 theorem C14_apply_total (b : BandState) (dev : List Int) (pls : List Plan) : b.applyGeneric dev pls ≠ panic := by
@@ -23,5 +82,10 @@ theorem C14_apply_total (b : BandState) (dev : List Int) (pls : List Plan) : b.a
   | ok m => simp
   | err => simp
   | panic => exact absurd h (key _ _)
+
+/-! non-vacuity: a reachable EU868 state with custom channels and a device set meeting the hypotheses -/
+def sampleState : BandState := run (Generated.allConfigs.headD default).init [.add 867100000 0 5, .add 867300000 0 5, .disable 1]
+example : sampleState.up.length = 5 ∧ sampleState.planGeneric [0, 1, 2, 3] = [{ cntl := 0, mask := 0x000d#16 }] := by decide
+example : sampleState.applyGeneric [0, 1, 2, 3] (sampleState.planGeneric [0, 1, 2, 3]) = ok [0, 2, 3] := by decide
 
 end LW.C14
